@@ -189,7 +189,7 @@ def run(ctx):
     ctx.guarded(r, r1_checks_dominate)
     r = ctx.rule("R2", "no Interval::new site can receive one NaN and one non-NaN bound (float-class abstract interpretation)", 30)
     ctx.guarded(r, r2_nanflow)
-    r = ctx.rule("R2c", "no Interval::new bound is a min/max accumulation from a constant seed (min/max skip NaN)", 63)
+    r = ctx.rule("R2c", "no Interval::new bound is a min/max accumulation from a constant seed (min/max skip NaN)", 40)
     ctx.guarded(r, r2c_nan_skipping_folds)
     r = ctx.rule("R2b", "unreachable!() defaults are justified by the range of their scrutinee", 1)
     ctx.guarded(r, r2b_unreachable_ranges)
